@@ -67,9 +67,6 @@ kf = ["# (iii) \\DDD in a quoted string is decoded as (d1<<16)+(d2<<8)+d3 -> cla
       case("m", O, 'a\\;b 60 IN A 1.2.3.4\n', recs=[rec(nameb([b"a;b", b"example", b"com"]), 1, 60, A("1.2.3.4"))]),
       case("m", O, 'x 60 IN NS a\\;b\n', recs=[rec(name("x.example.com"), 2, 60, "N," + nameb([b"a;b", b"example", b"com"]))]),
       ]
-kf += ["# (vi) CERT: only the first piece of the base64 data is decoded (RFC 4398 2.2 allows any number of pieces) -> class cert-base64-split",
-       case("m", O, "c 60 CERT 1 2 3 QUJD REVG\n", recs=[rec(name("c.example.com"), 37, 60, "CERT,1,2,3,414243444546")]),
-       case("m", O, "c 60 CERT 1 2 3 ( QUJ ; piece\n DREVG )\n", recs=[rec(name("c.example.com"), 37, 60, "CERT,1,2,3,414243444546")])]
 files["known-findings.case"] = kf
 
 # ---- layouts that must load (RFC 1035 §5.3 example, with a $TTL because RFC 2308 removed the SOA-minimum default)
@@ -210,10 +207,16 @@ sp = ["# hex data split anywhere — odd offsets, several pieces, over parenthes
       case("m", O, "w 60 SSHFP 2 1 123456789abcdef67890123456789abcdef67890\n", recs=[rec(W, 44, 60, "SSHFP,2,1,123456789abcdef67890123456789abcdef67890")]),
       case("m", O, "w 60 CERT 1 2 3 QUJDREVG\n", recs=[rec(W, 37, 60, "CERT,1,2,3,414243444546")]),
       case("m", O, "w 60 OPENPGPKEY QUJDREU=\n", recs=[rec(W, 61, 60, "OPENPGPKEY,4142434445")]),
+      "# regression of finding cert-base64-split (fix 1479f5a): CERT data in several pieces, down to single base64 digits",
+      case("m", O, "c 60 CERT 1 2 3 QUJD REVG\n", recs=[rec(name("c.example.com"), 37, 60, "CERT,1,2,3,414243444546")]),
+      case("m", O, "c 60 CERT 1 2 3 ( QUJ ; piece\n DREVG )\n", recs=[rec(name("c.example.com"), 37, 60, "CERT,1,2,3,414243444546")]),
+      case("m", O, "c 60 CERT 1 2 3 Q U J D R E V G\n", recs=[rec(name("c.example.com"), 37, 60, "CERT,1,2,3,414243444546")]),
+      case("m", O, "c 60 CERT 10528 64251 126 3 ( ) lg =\n", recs=[rec(name("c.example.com"), 37, 60, "CERT,10528,64251,126,de58")]),
+      case("m", O, "c 60 cerT 63858 971 121 hw= =\n", recs=[rec(name("c.example.com"), 37, 60, "CERT,63858,971,121,87")]),
       "# malformed data: odd number of digits / not hex / nothing (observations: DS drops a trailing odd digit, SSHFP and OPENPGPKEY refuse pieces)",
       ] + [case("m", O, t) for t in ["w 60 TLSA 3 1 1 a1b\n", "w 60 TLSA 3 1 1 a1 g2\n", "w 60 TLSA 3 1 1\n", "w 60 TLSA 3 1 1 \"a1 b2\"\n", "w 60 TLSA 256 1 1 aa\n", "w 60 TLSA +3 1 1 aa\n",
           "w 60 DS 1 5 2 abc\n", "w 60 DS 1 5 2 +a+b\n", "w 60 DS 1 5 2\n", "w 60 DS 1 rsasha1 2 aa\n", "w 60 DS 65536 5 2 aa\n", "w 60 DS 1 5 2 zz\n",
-          "w 60 SSHFP 2 1 1234 5678\n", "w 60 SSHFP 2 1 \"12 34\"\n", "w 60 SSHFP 2 1 \"\"\n", "w 60 OPENPGPKEY QUJD REU=\n", "w 60 CERT 1 2 3\n", "w 60 CERT 1 2 3 QUJ\n"]] + [
+          "w 60 SSHFP 2 1 1234 5678\n", "w 60 SSHFP 2 1 \"12 34\"\n", "w 60 SSHFP 2 1 \"\"\n", "w 60 OPENPGPKEY QUJD REU=\n", "w 60 CERT 1 2 3\n", "w 60 CERT 1 2 3 QQ== QQ==\n", "w 60 CERT 1 2 3 QR==\n", "w 60 CERT 1 2 3 Q===\n", "w 60 CERT 1 2 3 \"\"\n", "w 60 CERT 1 2 3 QU=D\n", "w 60 CERT 1 2 3 QUJD=\n", "w 60 OPENPGPKEY QQ==QQ==\n", "w 60 CERT 65536 2 3 QQ==\n", "w 60 CERT 1 2 3 QUJ\n"]] + [
       "# several groups per record, parentheses inside quoted strings and comments: must load",
       case("m", O, "w 60 TXT ( a ) ( b ) c\n", recs=[rec(W, 16, 60, TXT(b"a", b"b", b"c"))]),
       case("m", O, "w 60 TXT ( a\n) (\nb ) ( ) c\n", recs=[rec(W, 16, 60, TXT(b"a", b"b", b"c"))]),
